@@ -46,7 +46,14 @@ SCENARIOS = {
                 maxinc=1, asis={"ChildrenFirst", "StopIsComplete", "LiveAreRegistered"}),
     "orphan": S("ac", {"a": "u", "c": "a"}, [], {"t1": [("spawn", "a")], "h1": [("spawnchild", "c")]}, after={"h1": "a"},
                 asis={"LiveAreRegistered"}),
+    # thorough tier only: more threads / names
+    "spawn2n": S("ab", {"a": "u", "b": "u"}, [], {"t1": [("spawn", "a")], "t2": [("spawnfn", "a")], "t3": [("spawn", "b")], "t4": [("spawn", "b")]},
+                 maxinc=2, thorough=True),
+    "respawn2": S("a", {"a": "u"}, ["a"], {"t1": [("stop", "a")], "t2": [("spawn", "a")], "t3": [("spawnfn", "a"), ("actorof", "a")]}, maxinc=3, thorough=True,
+                  asis={"SpawnReturnsLive", "CounterSettles", "ResolvesLiveOnly", "LiveAreRegistered", "AtMostOneRunning"}),
     # C10
+    "watch2": S("avw", {"a": "u", "v": "u", "w": "u"}, "avw",
+                {"t1": [("stop", "a")], "t2": [("unwatch", "a", "w"), ("watch", "a", "w")], "t3": [("pill", "v")]}, watch=[("w", "a"), ("v", "a")], maxperm=2, thorough=True),
     "watch": S("avw", {"a": "u", "v": "u", "w": "u"}, "avw",
                {"t1": [("stop", "a")], "t2": [("unwatch", "a", "w")], "t3": [("watch", "a", "v")]}, watch=[("w", "a")], maxperm=2),
     "watchpill": S("avw", {"a": "u", "v": "u", "w": "u"}, "avw",
@@ -59,14 +66,17 @@ SCENARIOS = {
     "restart1": S("ab", {"a": "u", "b": "a"}, "ab", {"t2": [("restart", "b"), ("actorof", "b")]}, asis={"LiveAreRegistered"}),
     "restart": S("ab", {"a": "u", "b": "a"}, "ab", {"t1": [("stop", "a")], "t2": [("restart", "b")]}, thorough=True,
                  asis={"ChildrenFirst", "CounterSettles", "LiveAreRegistered", "StopIsComplete", "PostStopOnce"}),
+    "deep": S("abc", {"a": "u", "b": "a", "c": "b"}, "abc", {"t1": [("stop", "a")], "t2": [("stop", "c"), ("actorof", "c")]}, thorough=True,
+              asis={"ChildrenFirst", "ResolvesLiveOnly", "StopIsComplete"}),
     # C17
+    "sysstop2": S("abc", {"a": "u", "b": "a", "c": "u"}, "abc", {"t1": [("sysstop", "")], "t2": [("tell", "b"), ("stop", "b")], "t3": [("tellg", "g1")]}, grains=1, thorough=True),
     "sysstop": S("abc", {"a": "u", "b": "a", "c": "u"}, "abc", {"t1": [("sysstop", "")], "t2": [("tell", "b"), ("tellg", "g1"), ("tell", "c")]}, grains=2),
 }
 BY_PROP = {
-    "C11": ["spawn3", "respawn", "childco"],
-    "C10": ["watch", "watchpill", "wrestart"],
-    "C09": ["overlap", "restart1", "respawn", "child1", "orphan", "restart"],
-    "C17": ["sysstop"],
+    "C11": ["spawn3", "respawn", "childco", "spawn2n", "respawn2"],
+    "C10": ["watch", "watchpill", "wrestart", "watch2"],
+    "C09": ["overlap", "restart1", "respawn", "child1", "orphan", "deep"],
+    "C17": ["sysstop", "sysstop2"],
 }
 
 # ---------------------------------------------------------------- generation of MC_Tree.tla / cfgs from the table
@@ -119,6 +129,8 @@ def gen_files():
         files["MC_%s.cfg" % name] = gen_cfg(name, "= {}", ALLINV)                 # repaired design: everything holds
         files["MC_%s_asis.cfg" % name] = gen_cfg(name, "<- AllDefects", BASEINV)  # code as it is: graph for the replay
         files["MC_%s_c.cfg" % name] = gen_cfg(name, "<- AllDefects", ALLINV)      # code as it is vs. the properties
+        files["Trace_%s.cfg" % name] = (gen_cfg(name, "<- AllDefects", BASEINV).replace("SPECIFICATION Spec", "SPECIFICATION TraceSpec")
+                                        .replace("VIEW View\n", ""))                 # conformance of recorded replays
     return files
 
 
@@ -142,6 +154,7 @@ EXPLAINS = {
                                                                "ChildAttachedToStoppingParent", "SpawnOverRegisteredName"],
     "a running actor's parent is gone at quiescence": ["ChildAttachedToStoppingParent", "OrphanChildOutsideTree"],
     "a stopped actor is still registered at quiescence": ["StopInAttachWatchGap"],
+    "a stopped actor is still resolvable by name at quiescence": ["StopInAttachWatchGap"],
     "parent / children / watcher relations of the tree are inconsistent at quiescence": [],
 }
 FINDING_PROP = {"SpawnOverRegisteredName": {"C11", "C09"}, "ActorOfResolvesStopped": {"C09"}, "OverlappingStopSkipsChild": {"C09"},
@@ -170,7 +183,7 @@ def witnesses(h):
             n = par[n]
             out.append(n)
         return out
-    alive, lastd, opn, wit, started, everreg = {}, [], {}, set(), False, set()
+    alive, lastd, opn, wit, started, everreg, psbegun = {}, [], {}, set(), False, set(), set()
     def reg(n):
         for nd in lastd:
             if nd["n"] == n:
@@ -199,12 +212,19 @@ def witnesses(h):
         elif ev == "prestart":
             nd = reg(e["n"])
             if nd is not None and nd["i"] != e["i"]:
-                wit.add("SpawnOverRegisteredName")  # a new actor was started while its name was still registered
+                # a new actor was started while its name was still registered by an instance that is going down
+                # (PostStop begun, or a stop of it / of an ancestor / of the system in progress) or already down
+                old = (nd["n"], nd["i"])
+                going = old in psbegun or not alive.get(old) or any(
+                    o["op"] in STOPOPS and (o["n"] == e["n"] or o["n"] in anc(e["n"]) or o["op"] == "sysstop") for o in opn.values())
+                if going:
+                    wit.add("SpawnOverRegisteredName")
             p = par.get(e["n"], "u")
             if started and e["k"] == 1 and p != "u" and reg(p) is None:
                 wit.add("OrphanChildOutsideTree")   # a child was started while its parent was not (yet) in the tree
             alive[(e["n"], e["i"])] = True
         elif ev == "psenter":
+            psbegun.add((e["n"], e["i"]))
             # an alive registered descendant that somebody else is stopping at this very moment
             for (n, i), v in alive.items():
                 if v and e["n"] in anc(n) and reg(n) is not None and reg(n)["i"] == i:
@@ -301,7 +321,20 @@ def run(ctx, pid):
         rs = json.loads(p.stdout.strip().splitlines()[-1])
         return "stress-" + s, trace, rs
 
-    futs = [pool.submit(replay, s) for s in scns] + [pool.submit(stress, s) for s in scns]
+    # conformance of the recorded replays with Tree.tla (drift is reported, it is never a verdict)
+    def conform(s, trace):
+        r = ctx.tlc(SPEC, "Trace_%s.cfg" % s, module="Trace_Tree", dfs=True, files={"trace.ndjson": trace}, timeout=2400,
+                    heap="6g", name="conf-" + s, expect_fail=True)
+        n = sum(1 for _ in open(trace))
+        if r.violated:
+            return "invariant %s violated on the real trace at line %d" % (r.violated, r.depth)
+        if r.depth != n + 1:
+            return "trace rejected at line %d of %d" % (r.depth, n)
+        return None
+
+    rfuts = {s: pool.submit(replay, s) for s in scns}
+    cfuts = {s: pool.submit(lambda s=s: conform(s, rfuts[s].result()[1])) for s in (scns[:1] if quick else scns)}
+    futs = [rfuts[s] for s in scns] + [pool.submit(stress, s) for s in scns]
 
     def finish(violations=0):
         st, tr = ctx.states()
@@ -312,7 +345,8 @@ def run(ctx, pid):
                        "edge-cover walks replayed (each interleaves >= 2 logical threads)" % scns,
                "atomic_steps_replayed": tot["steps"], "replay_drift": tot["drift"], "events_judged": tot["events"],
                "edge_cover_walks_available": tot["walks_total"], "mismatches_for_other_properties": dict(others),
-               "known_finding_hits": dict(known_hits), "exhaustive": False}
+               "known_finding_hits": dict(known_hits), "exhaustive": False,
+               "conformance_drift": {s: f.result() for s, f in cfuts.items() if f.done()}}
         ctx.evidence("model_checking", cov,
                      ["bounded scenarios (<= 3 test actors, <= 3 harness threads, tree depth <= 2); test names are distinct, so the "
                       "tree's name index and id index coincide",
@@ -351,6 +385,7 @@ def run(ctx, pid):
     rows = vlib.read_ndjson(alltrace)
     hs = split_histories(rows)
     tot["events"] = nl
+    drifted = []
     for label, trace, rs, off, n in parts:
         tot["hist"] += rs["behaviours"]
         tot["walks"] += rs["behaviours"] if label.startswith("replay") else 0
@@ -375,7 +410,7 @@ def run(ctx, pid):
                 (label, rs["behaviours"], rs["steps"], rs["drift"], rs.get("drift_at") or "", n,
                  dict(collections.Counter(m[0] for m in here_mm)), len(mine)))
         if label.startswith("replay") and rs["drift"] * 5 > rs["behaviours"]:
-            raise vlib.Infra("replay drifted in %d of %d walks (%s): %s" % (rs["drift"], rs["behaviours"], label, rs.get("drift_at")))
+            drifted.append("replay drifted in %d of %d walks (%s): %s" % (rs["drift"], rs["behaviours"], label, rs.get("drift_at")))
         if mine:
             ln = mine[0][1]
             h = next(x for x in hs if x["start"] < ln - 1 <= x["rows"][-1][0])
@@ -385,6 +420,12 @@ def run(ctx, pid):
             finish(violations=len(mine))
             raise vlib.Violation(pid, rp, "%s: %s (line %d of the history file; witnesses seen %s; %d unexplained mismatches for %s)" %
                                  (label, mine[0][2], ln - h["start"], mine[0][3], len(mine), pid))
+    if drifted:      # a drifted walk still ran (free) and was judged above; too many of them means the binding is broken
+        finish()
+        raise vlib.Infra("; ".join(drifted))
+    for s, f in cfuts.items():
+        d = f.result()
+        ctx.log("conformance %s: %s" % (s, d or "every replayed step is a step of Tree.tla with the projected state"))
     pool.shutdown()
     finish()
 
@@ -393,7 +434,7 @@ if __name__ == "__main__":
     if len(sys.argv) > 1 and sys.argv[1] == "gen":
         d = os.path.join(os.path.dirname(os.path.dirname(os.path.dirname(os.path.abspath(__file__)))), "specs", SPEC)
         for fn in os.listdir(d):
-            if fn.endswith(".cfg") and fn.startswith("MC_"):
+            if fn.endswith(".cfg") and (fn.startswith("MC_") or fn.startswith("Trace_")):
                 os.remove(os.path.join(d, fn))
         for fn, text in gen_files().items():
             with open(os.path.join(d, fn), "w") as f:
